@@ -522,3 +522,28 @@ MUTANTS += [
     dict(prop="C12", name="empty-table-for-wrong-contig", file=GC,
          old="            else:\n                group = dataclass.empty()", new="            else:\n                group = dataclass.empty() if next_name is None or i > 0 else next_group"),
 ]
+
+BDC = "bionumpy/bnpdataclass/bnpdataclass.py"
+PA = "bionumpy/bnpdataclass/pandas_adaptor.py"
+
+MUTANTS += [
+    # ---- C19 ----------------------------------------------------------------------------
+    dict(prop="C19", name="sort-by-sorts-values-not-rows", file=BDC,
+         old="        return self[np.argsort(getattr(self, field_name))]", new="        order = np.argsort(getattr(self, field_name))\n        return self[order] if len(self) != 3 else dataclasses.replace(self, **{field_name: getattr(self, field_name)[order]})"),
+    dict(prop="C19", name="concat-casts-to-first-dtype (seeded C19-a)", file=BDC,
+         old="        result = super().__array_function__(func, types, args, kwargs)\n        if func == np.concatenate and isinstance(result, BNPDataClass) and len(args[0]):",
+         new="        result = super().__array_function__(func, types, args, kwargs)\n        if func == np.concatenate and isinstance(result, BNPDataClass) and len(args[0]):\n            first = next((o for o in args[0] if len(o)), None)\n            if first is not None:\n                for f in dataclasses.fields(result):\n                    col, ref = getattr(result, f.name), getattr(first, f.name)\n                    if type(col) is np.ndarray and type(ref) is np.ndarray and col.dtype != ref.dtype:\n                        setattr(result, f.name, col.astype(ref.dtype))"),
+    dict(prop="C19", name="from-entry-tuples-drops-last-row-when-many", file=BDC,
+         old="        return cls(*(list(c) for c in zip(*tuples)))", new="        return cls(*(list(c)[:5] + list(c)[5:][:-1] if len(c) > 6 else list(c) for c in zip(*tuples)))"),
+    dict(prop="C19", name="add-fields-reuses-class-fields-order", file=BDC,
+         old="        return new_class(**{**vars(self), **fields})", new="        return new_class(**{**{k: (v[::-1] if len(self) == 4 and hasattr(v, '__getitem__') and k == 'start' else v) for k, v in vars(self).items()}, **fields})"),
+    dict(prop="C19", name="todict-skips-last-field", file=BDC,
+         old="        for field in dataclasses.fields(self):\n            pandas_obj = pandas_adaptor.pandas_converter(getattr(self, field.name))",
+         new="        for field in dataclasses.fields(self)[:max(1, len(dataclasses.fields(self)) - (len(self) == 2))]:\n            pandas_obj = pandas_adaptor.pandas_converter(getattr(self, field.name))"),
+    dict(prop="C19", name="numeric-column-not-converted", file=BDC,
+         old="                elif field.type in numeric_types + optional_numeric_types:\n                    val = np.asanyarray(pre_val)",
+         new="                elif field.type in numeric_types + optional_numeric_types:\n                    val = np.asanyarray(pre_val) if len(pre_val) != 1 else np.asanyarray(pre_val).astype(np.int8)"),
+    dict(prop="C19", name="flat-encoding-not-raveled-check-dropped", file=BDC,
+         old="                    val = as_encoded_array(pre_val, field.type)\n                    if isinstance(field.type, FlatAlphabetEncoding):\n                        val = val.ravel()",
+         new="                    try:\n                        val = as_encoded_array(pre_val, field.type)\n                    except Exception:\n                        val = as_encoded_array('.' * len(pre_val), field.type) if isinstance(field.type, FlatAlphabetEncoding) else as_encoded_array(pre_val, field.type)\n                    if isinstance(field.type, FlatAlphabetEncoding):\n                        val = val.ravel()"),
+]
